@@ -80,9 +80,13 @@ public:
 	
 	ScopedRemover & operator = (ScopedRemover && other) noexcept
 	{
-		dispatcher = std::move(other.dispatcher);
-		itemList = std::move(other.itemList);
-		other.reset();
+		if(this != &other) {
+			// Remove the listeners this remover holds, otherwise they are never removed.
+			reset();
+			dispatcher = std::move(other.dispatcher);
+			itemList = std::move(other.itemList);
+			other.reset();
+		}
 		return *this;
 	}
 	
@@ -223,9 +227,13 @@ public:
 
 	ScopedRemover & operator = (ScopedRemover && other) noexcept
 	{
-		callbackList = std::move(other.callbackList);
-		itemList = std::move(other.itemList);
-		other.reset();
+		if(this != &other) {
+			// Remove the callbacks this remover holds, otherwise they are never removed.
+			reset();
+			callbackList = std::move(other.callbackList);
+			itemList = std::move(other.itemList);
+			other.reset();
+		}
 		return *this;
 	}
 
